@@ -287,7 +287,7 @@ func (e *env) serve(wv *writerVal, r *http.Request, p *probe) *httptest.Response
 // ---- the comparison with the plain recorder ------------------------------------
 
 func sameRequest(a, b *request) bool {
-	if a.Method != b.Method || a.Path != b.Path || a.CT != b.CT || a.CTPresent != b.CTPresent || len(a.Hdr) != len(b.Hdr) || !bytes.Equal(a.Body, b.Body) {
+	if a.Method != b.Method || a.Path != b.Path || a.CT != b.CT || a.CTPresent != b.CTPresent || len(a.Hdr) != len(b.Hdr) || !bytes.Equal(a.Body, b.Body) || a.D != b.D {
 		return false
 	}
 	for i := range a.Hdr {
